@@ -219,11 +219,7 @@ func (x *Exec) mergeOutcomes(outs []Outcome, base *pcNode) []Outcome {
 		for _, o := range rets {
 			t, ok := o.St.ghost[k]
 			if !ok {
-				if len(k) > 7 && k[:7] == "ncalls:" {
-					t = BVLit64(0, 64)
-				} else if len(k) > 5 && k[:5] == "lock:" {
-					t = IntLit(0)
-				} else {
+				if t = x.ghostInit(k); t == nil {
 					return outs
 				}
 			}
